@@ -282,4 +282,6 @@ def rule_payload_cache_retention(ctx):
             ctx.ob(R, "retain predicate", False, "block_proposal_cache.retain(..) does not compare the block number with the highest commit certificate's number: payloads of blocks that are not finalized can be dropped (predicate: %s)" % show(Inliner(ctx).ret_term(g))[:140], where)
 
 
-RULES = [("C06.7", rule_payload_cache_retention), ("C06.1", rule_main_loop), ("C06.2", rule_timeout_starter), ("C06.3", rule_bootstrap), ("C06.4", rule_catch_up), ("C06.5", rule_view_starter), ("C06.6", rule_proposer)]
+from .c03 import rule_proposals_roundtrip   # a restarted replica must still hold the payloads it voted for (else the block cannot be built when its certificate forms)
+
+RULES = [("C06.7", rule_payload_cache_retention), ("C03.10", rule_proposals_roundtrip), ("C06.1", rule_main_loop), ("C06.2", rule_timeout_starter), ("C06.3", rule_bootstrap), ("C06.4", rule_catch_up), ("C06.5", rule_view_starter), ("C06.6", rule_proposer)]
